@@ -1,13 +1,20 @@
 """C02 - emitted packets and header codecs conform to the ETSI wire formats.
 
-Decides (structure): bit-exact LAYOUT of every codec against the clause-9 tables, writer<->reader
-agreement, two's-complement handling of signed fields, enumeration code points, mobility flag position,
-zero reserved fields and provenance of NH, HT/HST, TC, MHL, flags and PL at origination (each from the request /
-MIB as clause 10.3 prescribes), header order and operand grammar of every emitted packet (Basic || Common || Extended
-[|| 4 media-dependent octets for SHB] || exactly one payload: the request data at origination, the received residual
-when forwarding, the secured packet when signed), with packets that are handed on pre-assembled (Timer arguments,
-parameters) followed to the site that assembles them.
-Does not decide: equality of whole packets with a reference encoder for every request (value level).
+Decides (structure): bit-exact LAYOUT of every codec against the clause-9 (GN) / clause-7 (BTP) tables (layout: total
+length, offset and width of every field on the writer and on the reader side, hence writer<->reader agreement; the
+reader's minimum-length guard; every field taken from the wire on every decoder branch); two's-complement handling of
+signed fields (signed: reduced modulo 2^w when written, sign-extended when read); enumeration code points, their fit into
+the field width and the decoder's HT -> HST enumeration dispatch (enums); mobility flag = MSB of the flags octet (flags);
+zero reserved fields at origination (reserved); provenance of NH, HT/HST, TC and MHL (origin: from the request; MHL 1
+only where TSB/SINGLE_HOP is established; NH ANY for payload-less packets) and of PL (pl: the request's length, the
+constant 0 only for BEACON / LS, GNDataRequest.length = len(data)) as clause 10.3 prescribes; header order and operand
+grammar of every emitted packet and of every to-be-signed part (assembly: Basic || Common || Extended [|| 4
+media-dependent octets for SHB] || exactly one payload: the request data at origination, the received residual when
+forwarding, the secured packet when signed), with packets that are handed on pre-assembled (Timer arguments, parameters)
+followed to the site that assembles them; that the copy-with-one-change methods (set_* / with_*) of the header, address
+and position-vector records forward every other field unchanged (copy-faithful).
+Does not decide: equality of whole packets with a reference encoder for every request, nor per-field value round trips
+other than through layout agreement (value level).
 """
 from __future__ import annotations
 
